@@ -15,6 +15,7 @@ import (
 func init() {
 	vfHarnesses["C12_acceptor"] = vfH_C12_acceptor
 	vfHarnesses["C12_single"] = vfH_C12_single
+	vfHarnesses["C12_single7"] = vfH_C12_single7
 	vfHarnesses["C12_restart"] = vfH_C12_restart
 	vfHarnesses["C12_compare"] = vfH_C12_compare
 }
@@ -114,7 +115,12 @@ func vfDeliver(m *ArbiterManager, commit bool, id uint64, host string, aofId [16
 // C12_single: two overlapping candidacies with different numbers, any order of at most 5
 // deliveries (messages may be lost or duplicated), no announcement in between: the acceptor
 // never accepts both commits.
-func vfH_C12_single() {
+var vfC12Deliveries = 5
+
+func vfH_C12_single()  { vfC12Deliveries = 5; vfC12Single() }
+func vfH_C12_single7() { vfC12Deliveries = 7; vfC12Single() }
+
+func vfC12Single() {
 	_, m := vfArbiter(false)
 	v := m.voter
 	v.proposalId, v.commitId = vfU64("proposalId"), vfU64("commitId")
@@ -122,7 +128,7 @@ func vfH_C12_single() {
 	vfAssume(p1 != p2)
 	var aofId [16]byte
 	c1, c2 := false, false
-	for step := 0; step < 5; step++ {
+	for step := 0; step < vfC12Deliveries; step++ {
 		switch vfChoice(vfName("msg", step), 4) {
 		case 0:
 			vfDeliver(m, false, p1, "B", aofId)
